@@ -637,14 +637,17 @@ pub unsafe extern "C" fn SFileHasFile(archive: HANDLE, filename: *const c_char) 
         Err(_) => return false,
     };
 
-    let archives = ARCHIVES.lock().unwrap();
-    if let Some(archive_handle) = archives.get(&archive_id) {
-        matches!(
-            archive_handle.archive().find_file(filename_str),
-            Ok(Some(_))
-        )
-    } else {
-        false
+    let mut archives = ARCHIVES.lock().unwrap();
+    match archives.get_mut(&archive_id) {
+        Some(ArchiveHandle::ReadOnly { archive, .. }) => {
+            matches!(archive.find_file(filename_str), Ok(Some(_)))
+        }
+        // A handle opened for modification answers from its current state (files
+        // added, removed or renamed in this session), like SFileOpenFileEx does
+        Some(ArchiveHandle::Mutable { archive, .. }) => {
+            matches!(archive.find_file(filename_str), Ok(Some(_)))
+        }
+        None => false,
     }
 }
 
